@@ -296,14 +296,14 @@ func c19CompareModel(c *lib.Ctx, agg *c19Sink) {
 	}
 	var cl []string
 	for k, n := range perClass {
-		r.Histogram["model-c19.ext-"+k] += n
+		r.HistAdd("model-c19.ext-"+k, n)
 		cl = append(cl, fmt.Sprintf("%s=%d", k, n))
 	}
 	sort.Strings(cl)
 	var ob []string
 	tot := 0
 	for k, n := range agg.n {
-		r.Histogram["observed-c19.ext-"+k] += n
+		r.HistAdd("observed-c19.ext-"+k, n)
 		ob = append(ob, fmt.Sprintf("%s=%d", k, n))
 		tot += n
 	}
